@@ -161,6 +161,92 @@ def c18_class(r):
     return op
 
 
+def c18_corrupt(recs, seed):
+    """Binding self-test: results the implementation did NOT produce (one semantic change each); every one must be
+    rejected by Trace_Descriptor."""
+    import copy, random
+    rnd = random.Random(seed ^ 0xC18)
+    out = []
+    def add(r, fn):
+        c = copy.deepcopy(r)
+        fn(c["got"])
+        if c["got"] != r["got"]:
+            out.append(c)
+    def first_type(op, v):
+        if op == "field":
+            return v
+        if op == "return":
+            return v[0] if v else None
+        ts = list(v["params"]) + list(v["ret"])
+        return ts[0] if ts else None
+    by = {}
+    for r in recs:
+        if isinstance(r.get("got"), dict) and "panic" not in r["got"]:
+            by.setdefault(r["op"], []).append(r)
+    for op, rs in sorted(by.items()):
+        rnd.shuffle(rs)
+        if op in DESC_OPS:
+            oks = [r for r in rs if r["got"]["res"]["ok"]]
+            nos = [r for r in rs if not r["got"]["res"]["ok"]]
+            for r in oks[:4]:
+                add(r, lambda g: g.update({"res": {"ok": False, "v": []}}))
+                add(r, lambda g: g.update({"printed": g["printed"][:-1]}))
+                add(r, lambda g: g.update({"printed": g["printed"] + [";"]}))
+                add(r, lambda g: g.update({"wpanic": True}))
+                def dims(g, op=op):
+                    t = first_type(op, g["res"]["v"])
+                    if t is not None:
+                        t["dims"] = t["dims"] + 1 if t["dims"] < 255 else 254
+                add(r, dims)
+                def base(g, op=op):
+                    t = first_type(op, g["res"]["v"])
+                    if t is not None:
+                        if t["base"] == "L":
+                            t["name"] = t["name"] + ["x"]
+                        else:
+                            t["base"] = "J" if t["base"] != "J" else "I"
+                add(r, base)
+                if op == "method":
+                    add(r, lambda g: g["res"]["v"].update({"params": g["res"]["v"]["params"][1:] if g["res"]["v"]["params"] else [{"dims": 0, "base": "I", "name": []}]}))
+                    add(r, lambda g: g["res"]["v"].update({"ret": [] if g["res"]["v"]["ret"] else [{"dims": 0, "base": "I", "name": []}]}))
+            for r in nos[:4]:
+                if oks:
+                    add(r, lambda g: g.update(copy.deepcopy(oks[0]["got"])))
+        elif op.startswith("name:"):
+            for val in (True, False):
+                for r in [x for x in rs if x["got"]["valid"] is val][:2]:
+                    for k in ("valid", "ctor", "octor"):
+                        add(r, lambda g, k=k: g.update({k: not g[k]}))
+        elif op == "split":
+            some = [r for r in rs if r["got"]["res"]["ok"] and r["got"]["res"]["v"]]
+            none = [r for r in rs if r["got"]["res"]["ok"] and not r["got"]["res"]["v"]]
+            ref = [r for r in rs if not r["got"]["res"]["ok"]]
+            for r in some[:4]:
+                add(r, lambda g: g.update({"res": {"ok": True, "v": []}, "parent": [], "inner": []}))
+                add(r, lambda g: g["res"].update({"v": [g["res"]["v"][0] + ["$"], g["res"]["v"][1]]}))
+                add(r, lambda g: g.update({"inner": []}))
+                add(r, lambda g: g.update({"parent": [g["res"]["v"][1]]}))
+                add(r, lambda g: g.update({"res": {"ok": False, "v": []}}))
+            for r in none[:3]:
+                add(r, lambda g: g.update({"res": {"ok": True, "v": [["a"], ["b"]]}, "parent": [["a"]], "inner": [["b"]]}))
+                add(r, lambda g: g.update({"res": {"ok": False, "v": []}}))
+            for r in ref[:3]:
+                add(r, lambda g: g.update({"res": {"ok": True, "v": []}, "parent": [], "inner": []}))
+        elif op == "join":
+            oks = [r for r in rs if r["got"]["res"]["ok"]]
+            for r in oks[:4]:
+                add(r, lambda g: g["res"].update({"v": g["res"]["v"] + ["$"]}))
+                add(r, lambda g: g.update({"split": [] if g["split"] else [["a"], ["b"]]}))
+                add(r, lambda g: g.update({"res": {"ok": False, "v": []}}))
+            for r in [x for x in rs if not x["got"]["res"]["ok"]][:3]:
+                add(r, lambda g, r=r: g.update({"res": {"ok": True, "v": r["p"] + ["$"] + r["i"]}, "split": []}))
+        elif op == "print":
+            for r in [x for x in rs if "printed" in x["got"]][:6]:
+                add(r, lambda g: g.update({"printed": g["printed"][1:]}))
+                add(r, lambda g: g.update({"reparsed": {"ok": False, "v": []}}))
+    return out
+
+
 _NAME_KINDS = ["class", "arr_class", "obj_class", "field", "method", "param", "local"]
 
 P = {
@@ -178,6 +264,7 @@ P = {
                          "split/ok", "split/none", "split/refuse", "join/inverse", "join/other", "join/refuse"]
                         + ["name:%s/%s" % (k, x) for k in _NAME_KINDS for x in ("ok", "refuse")],
     "signature": c18_sig,
+    "corrupt": c18_corrupt,
     "level_text": "The JVMS 4.3 descriptor grammar (field / method / return, 255-dimension cap, binary class names of 4.2.1/4.2.2 inside L;) is specified over character sequences twice - declaratively and as the recursive-descent reader of descriptor.rs (one step per character, cursor, dimension counter) - and TLC checks on every string over {B I J V L ; [ ( ) a / . $} up to length 5 (quick) / 6 (thorough), on the 254/255/256-dimension boundary strings and on every one-letter string that both agree, that Print(Parse(s)) = s for every accepted s and Parse(Print(t)) = t for a universe of structures. The seven documented name predicates, Split and Join are specified likewise and checked on every string over {a . ; [ / < > $ L} up to length 5 plus <init>/<clinit> near misses and array names at the dimension boundary (Split operational = declarative, Split/Join mutually inverse). Every explored (string, kind) is replayed through the real TryFrom + parse() + write(), X::is_valid / both TryFrom forms, split_inner_class_parent_and_name (+ both getters) and from_inner_class and compared with the specification's verdict, structure and printed characters; seeded random longer inputs (up to 300 dimensions, long and unicode class names, one-edit perturbations of valid descriptors, trailing garbage, nested / missing parentheses) run by the real code are re-judged by TLC from the recorded characters (trace validation).",
     "level_note": "Exhaustive only up to the length bound and over the 13- resp. 9-character alphabets (other base types C D F S Z and other letters occur in the one-letter, structure and random families only). Trusted: TLC; the harness conversion characters <-> JavaString and Type <-> {dims, base, name}. The descriptor newtypes' own check_valid is a stub in duke (always Ok) and not part of the property's list of predicates: a refusal by TryFrom or by parse() counts alike. Lone surrogates (JavaString can hold them) are not generated. Known findings (class names inside L; unchecked; array-form class names unchecked) are matched by narrow signatures, every other disagreement is a violation.",
     "assumptions": ["TLC/SANY/CommunityModules", "harness conversion character sequence <-> JavaString, Type <-> abstract structure (c18.rs)",
